@@ -203,6 +203,17 @@ def check(case, ctx):
                 if not np.allclose(lv, iv, rtol=1e-9, atol=1e-9 * max(1.0, float(np.abs(iv).max(initial=0)))):
                     raise Violation("last value of cumint differs from integrate", got=lv.tolist(), expected=iv.tolist())
                 classes.append("rel:integrate")
+    # the pre-defined 1-D cumsum grid ufuncs of xgcm.gridops called directly (rule and fill value spelled out per call)
+    if mode == "plain" and len(case["op_axes"]) == 1 and not plain32:
+        from xgcm import gridops
+
+        n = case["op_axes"][0]
+        uf = getattr(gridops, f"cumsum_{case['data_pos'][n]}_to_{targets[n]}", None)
+        if uf is not None:
+            direct = must_return(f"gridops.cumsum_{case['data_pos'][n]}_to_{targets[n]}", uf, grid, da, axis=[(n,)],
+                                 boundary={n: rules[n]}, fill_value={n: fills[n]})
+            compare(direct.transpose(*exp_dims), exp, exp_dims, "pre-defined cumsum grid ufunc called directly vs running-sum model", exact=exact)
+            classes.append("direct-gridops-ufunc")
     # history independence: the main call again after the other calls on this Grid
     if mode == "plain":
         must_return("cumsum with another boundary treatment", grid.cumsum, da, list(case["op_axes"]), boundary="fill", fill_value=41.5)
